@@ -16,14 +16,22 @@
 (*      YKeep(b,p) y_p <= y_b - h or y_p >= y_b + h (band removal)         *)
 (*                 both come from integer heights when yb >= 0             *)
 (*                 (model checking) and from recorded tables when yb = -1  *)
-(*      zl[p]      ZLevel: first round r with z_p >= 3 - r*dz; chosen      *)
-(*                 LAZILY (a point that is removed before it becomes a     *)
-(*                 candidate never gets a level) unless given in Init      *)
+(*      ZLevel[p]  first round r with z_p >= 3 - r*dz.  Only WHEN a point  *)
+(*                 becomes a candidate matters, so the levels are chosen   *)
+(*                 LAZILY: each round reveals which undecided remaining    *)
+(*                 points join (a point removed earlier never gets a       *)
+(*                 level), and zl[p] keeps, for the remaining candidates   *)
+(*                 only, the dense rank of their level (= arrival order).  *)
+(*                 zgiven.on = FALSE: any ZLevel in 0..ZMax (model checking);  *)
+(*                 zgiven = [on, lv, stop]: recorded   levels (replay).      *)
 (*      stopLevel  first round with outlier_z <= min_zscore (-1: not yet   *)
 (*                 reached; lazily chosen, forced at round ZMax)           *)
 (*      zkey[p]    rank of z_p, refines the visiting order of same-level   *)
 (*                 groups (all 0 in model checking = any order)            *)
-(*    Program state: remaining, selected, round, added, todo, pc, result.  *)
+(*    Program state: remaining, selected (kept as a set: the order of      *)
+(*    selection is never used, the final sweep sorts by x), round, added   *)
+(*    (points_added, only ever tested against 0: a 0/1 flag), todo (the    *)
+(*    representatives of a multi-group round not yet visited), pc, result. *)
 (***************************************************************************)
 EXTENDS Integers, Sequences, FiniteSets, TLC
 
@@ -48,18 +56,18 @@ ZClause(res, n, xk, hk, w, ysep) ==
 ZOk(res, n, xk, hk, w, ysep) == ZClause(res, n, xk, hk, w, ysep) = "ok"
 
 (* ======================= the round machine ============================== *)
-VARIABLES n, xs, hr, w, yb, ytab, zkey, early,       \* the call (constant along a behaviour)
+VARIABLES n, xs, hr, w, yb, ytab, zkey, zgiven, early,   \* the call (constant along a behaviour)
           zl, stopLevel,                             \* lazily chosen oracles
           remaining, selected, round, added, todo, pc, result
-input == <<n, xs, hr, w, yb, ytab, zkey, early>>
-vars == <<n, xs, hr, w, yb, ytab, zkey, early, zl, stopLevel, remaining, selected, round, added, todo, pc, result>>
+input == <<n, xs, hr, w, yb, ytab, zkey, zgiven, early>>
+vars == <<n, xs, hr, w, yb, ytab, zkey, zgiven, early, zl, stopLevel, remaining, selected, round, added, todo, pc, result>>
 
 Empty == [p \in {} |-> 0]
 YSel(a, b) == IF yb >= 0 THEN Abs(hr[a] - hr[b]) >= yb ELSE ytab.sel[a + 1][b + 1]
 YKeep(b, p) == IF yb >= 0 THEN hr[p] <= hr[b] - yb \/ hr[p] >= hr[b] + yb ELSE ytab.keep[b + 1][p + 1]
 
 \* `if all(abs(outlier_best[1]-i) >= y_height for i in outlier_points[:,1])`
-Guard(b) == NoYGuard \/ \A s \in Range(selected) : YSel(b, s)
+Guard(b) == NoYGuard \/ \A s \in selected : YSel(b, s)
 \* `points = points[np.where(((x <= bx - w) | (x >= bx + w)) & ((y <= by - h) | (y >= by + h)))]`:
 \* a point survives only if it is outside BOTH bands
 RemoveBands(b, rem) ==
@@ -88,6 +96,7 @@ Groups(C) == {GroupOf(C, bnd) : bnd \in Bounds(C)}
 \* (minimum z = latest level, smallest z rank)
 RepOf(G, lv) == [rep |-> Lowest(G), lvl |-> SetMax({lv[p] : p \in G}), zk |-> SetMin({zkey[p] : p \in G})]
 \* `candidate_outliers[np.argsort(z)][::-1]`: decreasing z; equal z in any order
+DenseLevels(T) == {[g EXCEPT !.lvl = Cardinality({h.lvl : h \in {h \in T : h.lvl < g.lvl}})] : g \in T}
 Before(g, h) == g.lvl < h.lvl \/ (g.lvl = h.lvl /\ g.zk > h.zk)
 Minimal(T) == {g \in T : \A h \in T : ~Before(h, g)}
 
@@ -96,9 +105,16 @@ Bottom == stopLevel # -1 /\ round >= stopLevel          \* outlier_z <= min_zsco
 \* lazily reveal which undecided remaining points reach the threshold in this round, and whether the
 \* threshold has reached the minimum z-score (possible only once every remaining point is a candidate)
 Undecided == remaining \ DOMAIN zl
-Reveal(J) == [p \in DOMAIN zl \cup J |-> IF p \in DOMAIN zl THEN zl[p] ELSE round]
-JoinSets == IF round >= ZMax THEN {Undecided} ELSE SUBSET Undecided
+Reveal(J) == LET top == IF DOMAIN zl = {} THEN 0 ELSE SetMax({zl[p] : p \in DOMAIN zl}) + 1
+             IN [p \in DOMAIN zl \cup J |-> IF p \in DOMAIN zl THEN zl[p] ELSE top]
+\* forget the levels of removed points, keep only the order of the others
+Normalize(f, rem) == LET D == DOMAIN f \cap rem
+                         used == {f[p] : p \in D}
+                     IN [p \in D |-> Cardinality({v \in used : v < f[p]})]
+JoinSets == IF zgiven.on THEN {{p \in Undecided : zgiven.lv[p] <= round}}
+            ELSE IF round >= ZMax THEN {Undecided} ELSE SUBSET Undecided
 StopChoices(J) == IF stopLevel # -1 THEN {stopLevel}
+                  ELSE IF zgiven.on THEN {IF round >= zgiven.stop THEN round ELSE -1}
                   ELSE IF Undecided \subseteq J THEN (IF round >= ZMax THEN {round} ELSE {-1, round})
                   ELSE {-1}
 Cand(J) == remaining \cap (DOMAIN zl \cup J)            \* `points[points[:,2] >= outlier_z]`
@@ -111,7 +127,7 @@ EarlyReturn == /\ pc = "early"
 RoundEmpty == /\ pc = "round"
               /\ \E J \in JoinSets : \E sl \in StopChoices(J) :
                    /\ Cand(J) = {}
-                   /\ zl' = Reveal(J) /\ stopLevel' = sl
+                   /\ zl' = zl /\ stopLevel' = sl
               /\ pc' = "test"
               /\ UNCHANGED <<input, remaining, selected, round, added, todo, result>>
 
@@ -121,12 +137,13 @@ RoundSingleGroup ==
     /\ \E J \in JoinSets : \E sl \in StopChoices(J) :
          LET C == Cand(J)  best == Lowest(C)
          IN /\ C # {} /\ Cuts(C) = {}
-            /\ zl' = Reveal(J) /\ stopLevel' = sl
+            /\ stopLevel' = sl
             /\ IF Guard(best)
-               THEN /\ selected' = Append(selected, best)
+               THEN /\ selected' = selected \cup {best}
                     /\ remaining' = RemoveBands(best, remaining)
-                    /\ added' = added + 1
+                    /\ added' = 1
                ELSE UNCHANGED <<selected, remaining, added>>
+            /\ zl' = Normalize(Reveal(J), remaining')
     /\ pc' = "test"
     /\ UNCHANGED <<input, round, todo, result>>
 
@@ -137,7 +154,7 @@ RoundMultiGroup ==
          LET C == Cand(J)
          IN /\ C # {} /\ Cuts(C) # {}
             /\ zl' = Reveal(J) /\ stopLevel' = sl
-            /\ todo' = {RepOf(G, Reveal(J)) : G \in Groups(C)}
+            /\ todo' = DenseLevels({RepOf(G, Reveal(J)) : G \in Groups(C)})
     /\ pc' = "visit"
     /\ UNCHANGED <<input, remaining, selected, round, added, result>>
 
@@ -147,12 +164,13 @@ Visit == /\ pc = "visit"
          /\ \E g \in Minimal(todo) :
               /\ todo' = todo \ {g}
               /\ IF Guard(g.rep)
-                 THEN /\ selected' = Append(selected, g.rep)
+                 THEN /\ selected' = selected \cup {g.rep}
                       /\ remaining' = RemoveBands(g.rep, remaining)
-                      /\ added' = added + 1
+                      /\ added' = 1
                  ELSE UNCHANGED <<selected, remaining, added>>
+              /\ zl' = Normalize(zl, remaining')
               /\ pc' = IF todo' = {} THEN "test" ELSE "visit"
-         /\ UNCHANGED <<input, zl, stopLevel, round, result>>
+         /\ UNCHANGED <<input, stopLevel, round, result>>
 
 \* `if len(points) == 0 or ((outlier_z <= min_zscore) and points_added == 0): break`
 StopCond == remaining = {} \/ (Bottom /\ added = 0)
@@ -174,13 +192,13 @@ SweepSeq(s) == LET RECURSIVE F(_, _, _)
                                    ELSE F(j + 1, Append(acc, s[j]), hr[s[j]])
                IN F(1, <<>>, -1)
 Sweep == /\ pc = "sweep"
-         /\ result' = SweepSeq(SortedSeq(Range(selected))) /\ pc' = "done"
+         /\ result' = SweepSeq(SortedSeq(selected)) /\ pc' = "done"
          /\ UNCHANGED <<input, zl, stopLevel, remaining, selected, round, added, todo>>
 
 Next == EarlyReturn \/ RoundEmpty \/ RoundSingleGroup \/ RoundMultiGroup \/ Visit \/ Stop \/ LowerZ \/ Sweep
 
 \* the program part of the initial state, for a call already stored in `input`
-InitProgram == /\ remaining = 0..(n - 1) /\ selected = <<>> /\ round = 0 /\ added = 0 /\ todo = {}
+InitProgram == /\ remaining = 0..(n - 1) /\ selected = {} /\ round = 0 /\ added = 0 /\ todo = {}
                /\ result = <<>>
                /\ pc = IF n < 4 \/ early THEN "early" ELSE "round"
 
@@ -189,10 +207,10 @@ ResultOk == pc = "done" =>
     ZOk(result, n, [a \in 1..Len(result) |-> xs[result[a]]], [a \in 1..Len(result) |-> hr[result[a]]], w,
         [a \in 1..Len(result) |-> [b \in 1..Len(result) |-> YSel(result[a], result[b])]])
 \* every selection is separated from every other one, also inside one multi-group round
-SelectedSeparated == \A a \in 1..Len(selected), b \in 1..Len(selected) :
-    a < b => Abs(xs[selected[a]] - xs[selected[b]]) >= w /\ YSel(selected[a], selected[b])
+SelectedSeparated == \A a \in selected, b \in selected :
+    a # b => Abs(xs[a] - xs[b]) >= w /\ YSel(a, b)
 \* band removal: whatever is still available lies outside both bands of everything selected
-RemainingOutside == \A p \in remaining, s \in Range(selected) : Abs(xs[p] - xs[s]) >= w /\ YKeep(s, p)
+RemainingOutside == \A p \in remaining, s \in selected : Abs(xs[p] - xs[s]) >= w /\ YKeep(s, p)
 \* iterations of `while True` = round + 1 <= maxZLevel + n + 2
 RoundBound == IF stopLevel = -1 THEN round <= ZMax ELSE round + 1 <= stopLevel + n + 2
 Terminates == <>(pc = "done")
